@@ -166,6 +166,9 @@ struct World {
     tid_by_hash: HashMap<Byte32, usize>,
     gcells: Vec<(OutPoint, u64)>,
     salt: u64,
+    /// op number at which a pool dump last showed maintained ancestors_* != recomputation (C11's F3)
+    stale_op: Option<u64>,
+    op_no: u64,
 }
 
 fn cap_of(tx: &TransactionView, i: usize) -> u64 {
@@ -190,7 +193,7 @@ impl World {
         let copies = (0..3).map(|i| Copy { node: Node::start(&dir.join(format!("copy-{i}")), consensus.clone(), &ncfg), cursor: 0 }).collect();
         let builder = ChainBuilder::new(consensus.clone(), &dir.join("builder"));
         let gcells = genesis_cells(&consensus);
-        World { dir, cfg, consensus, main, copies, log: vec![], builder, txs: vec![], tid_by_short: HashMap::new(), tid_by_hash: HashMap::new(), gcells, salt: 1000 }
+        World { dir, cfg, consensus, main, copies, log: vec![], builder, txs: vec![], tid_by_short: HashMap::new(), tid_by_hash: HashMap::new(), gcells, salt: 1000, stale_op: None, op_no: 0 }
     }
 
     fn finish(self) {
@@ -201,6 +204,12 @@ impl World {
         }
         main.stop();
         let _ = std::fs::remove_dir_all(dir);
+    }
+
+    /// the pool's aggregates were seen stale now or within the last 3 ops (templates are built
+    /// asynchronously, a little before they are fetched)
+    fn stale(&self) -> bool {
+        self.stale_op.map_or(false, |o| self.op_no - o <= 3)
     }
 
     fn tpc(&self) -> &ckb_tx_pool::TxPoolController {
@@ -275,6 +284,35 @@ impl World {
 // template oracle
 // ------------------------------------------------------------------------------------------------
 
+/// true iff some entry's maintained ancestors_{count,size,cycles,fee} differ from the recomputation
+/// over the implementation's own calc_ancestors
+fn pool_aggregates_stale(w: &World) -> bool {
+    w.tpc()
+        .verif_read(|pool| {
+            let pm = pool.verif_pool_map();
+            let d = pm.verif_dump();
+            let by: HashMap<ProposalShortId, &ckb_tx_pool::verif::EntryDump> = d.entries.iter().map(|e| (e.id.clone(), e)).collect();
+            d.entries.iter().any(|e| {
+                let a = pm.verif_calc_ancestors(&e.id);
+                let t = &e.entry;
+                let sz: u64 = a.iter().filter_map(|x| by.get(x)).map(|x| x.entry.size as u64).sum();
+                let cy: u64 = a.iter().filter_map(|x| by.get(x)).map(|x| x.entry.cycles).sum();
+                let fe: u64 = a.iter().filter_map(|x| by.get(x)).map(|x| x.entry.fee.as_u64()).sum();
+                t.ancestors_count != a.len() + 1 || t.ancestors_size as u64 != t.size as u64 + sz || t.ancestors_cycles != t.cycles + cy || t.ancestors_fee.as_u64() != t.fee.as_u64() + fe
+            })
+        })
+        .unwrap_or(false)
+}
+
+/// failures that coincide with stale pool aggregates are the known consequence of C11's F3 (F8)
+fn fail(stale: bool, out: &mut Out, class: &str, detail: &str) {
+    if stale {
+        out.oracle_fail(&format!("{class}-stale-aggregates"), detail);
+    } else {
+        out.oracle_fail(class, detail);
+    }
+}
+
 fn check_template(w: &mut World, out: &mut Out, mine: bool) -> Option<BlockView> {
     let tmpl = match w.tpc().get_block_template(None, None, None) {
         Ok(Ok(t)) => t,
@@ -284,6 +322,10 @@ fn check_template(w: &mut World, out: &mut Out, mine: bool) -> Option<BlockView>
             return None;
         }
     };
+    if pool_aggregates_stale(w) {
+        w.stale_op = Some(w.op_no);
+    }
+    let stale = w.stale();
     let cycles: u64 = tmpl.transactions.iter().map(|t| t.cycles.map(|c| c.value()).unwrap_or(0)).sum();
     let block: packed::Block = tmpl.into();
     let block = block.into_view();
@@ -306,13 +348,13 @@ fn check_template(w: &mut World, out: &mut Out, mine: bool) -> Option<BlockView>
     let cons = w.consensus.clone();
     let size = block.data().serialized_size_without_uncle_proposals() as u64;
     if size > cons.max_block_bytes {
-        out.oracle_fail("template-size", &format!("{} size={} max={}", detail(&block), size, cons.max_block_bytes));
+        fail(stale, out, "template-size", &format!("{} size={} max={}", detail(&block), size, cons.max_block_bytes));
     }
     if size + 400 > cons.max_block_bytes {
         out.count("template-size-near-limit");
     }
     if cycles > cons.max_block_cycles {
-        out.oracle_fail("template-cycles", &format!("{} cycles={} max={}", detail(&block), cycles, cons.max_block_cycles));
+        fail(stale, out, "template-cycles", &format!("{} cycles={} max={}", detail(&block), cycles, cons.max_block_cycles));
     }
     if cycles + 600 > cons.max_block_cycles && cycles > 0 {
         out.count("template-cycles-near-limit");
@@ -332,20 +374,20 @@ fn check_template(w: &mut World, out: &mut Out, mine: bool) -> Option<BlockView>
         for (pos, tx) in block.transactions().iter().enumerate().skip(1) {
             for op in tx.input_pts_iter() {
                 if !spent.insert(op.clone()) {
-                    out.oracle_fail("template-unresolved", &format!("{} input spent twice", detail(&block)));
+                    fail(stale, out, "template-unresolved", &format!("{} input spent twice", detail(&block)));
                 }
                 let h = op.tx_hash();
                 if created.contains_key(&h) {
                     continue;
                 }
                 if all.contains(&h) {
-                    out.oracle_fail("template-order", &format!("{} tx at {} spends an output of a later template tx", detail(&block), pos));
+                    fail(stale, out, "template-order", &format!("{} tx at {} spends an output of a later template tx", detail(&block), pos));
                     continue;
                 }
                 if let Some(i) = ci {
                     if !w.copies[i].node.store().have_cell(&op) {
                         let inpool = w.tid_by_hash.get(&h).map(|t| format!("tx{t}")).unwrap_or_else(|| "?".into());
-                        out.oracle_fail("template-unresolved", &format!("{} tx at {} has an input ({}) that is not live on the parent chain and not in the template", detail(&block), pos, inpool));
+                        fail(stale, out, "template-unresolved", &format!("{} tx at {} has an input ({}) that is not live on the parent chain and not in the template", detail(&block), pos, inpool));
                     }
                 }
             }
@@ -388,12 +430,12 @@ fn check_template(w: &mut World, out: &mut Out, mine: bool) -> Option<BlockView>
             }
             let r = copy.process(&block);
             if r != Ok(true) {
-                out.oracle_fail("template-rejected", &format!("{} -> {:?}", detail(&block), r));
+                fail(stale, out, "template-rejected", &format!("{} -> {:?}", detail(&block), r));
             } else {
                 out.count("template-accepted");
             }
             if copy.tip_hash() != block.hash() {
-                out.oracle_fail("template-rejected", &format!("{} accepted but not the copy's tip", detail(&block)));
+                fail(stale, out, "template-rejected", &format!("{} accepted but not the copy's tip", detail(&block)));
             }
         }
     }
@@ -512,7 +554,9 @@ fn do_select(w: &mut World, out: &mut Out, sl: u64, cl: u64) {
     out.op("hyp", &format!("links={} agg={} key={}", links_ok as u8, agg_ok as u8, key_ok as u8));
     if !agg_ok {
         out.count("view-aggregates-stale");
+        w.stale_op = Some(w.op_no);
     }
+    let stale = w.stale();
     if !links_ok {
         out.count("view-links-inconsistent");
     }
@@ -533,11 +577,11 @@ fn do_select(w: &mut World, out: &mut Out, sl: u64, cl: u64) {
         tcycles += *cycles;
         match by_id.get(id) {
             Some(e) if e.status == Status::Proposed => {}
-            _ => out.oracle_fail("selector-ancestors", &format!("{d}: tx{} is not a proposed pool entry", tid(id))),
+            _ => fail(stale, out, "selector-ancestors", &format!("{d}: tx{} is not a proposed pool entry", tid(id))),
         }
         for a in &r.anc[id] {
             if !seen.contains(a) {
-                out.oracle_fail("selector-ancestors", &format!("{d}: tx{} appears without/before its in-pool ancestor tx{}", tid(id), tid(a)));
+                fail(stale, out, "selector-ancestors", &format!("{d}: tx{} appears without/before its in-pool ancestor tx{}", tid(id), tid(a)));
             }
         }
         // direct parents by the transactions' own inputs
@@ -545,12 +589,12 @@ fn do_select(w: &mut World, out: &mut Out, sl: u64, cl: u64) {
         for op in tx.input_pts_iter() {
             let pid = ProposalShortId::from_tx_hash(&op.tx_hash());
             if ids.contains(&pid) && !seen.contains(&pid) {
-                out.oracle_fail("selector-order", &format!("{d}: tx{} before its parent tx{}", tid(id), tid(&pid)));
+                fail(stale, out, "selector-order", &format!("{d}: tx{} before its parent tx{}", tid(id), tid(&pid)));
             }
         }
     }
     if tsize > sl || tcycles > cl {
-        out.oracle_fail("selector-limits", &format!("{d}: total size {tsize} cycles {tcycles} hyp(agg)={}", agg_ok as u8));
+        fail(stale, out, "selector-limits", &format!("{d}: total size {tsize} cycles {tcycles} hyp(agg)={}", agg_ok as u8));
     }
     if tsize != r.size as u64 || tcycles != r.cycles {
         out.oracle_fail("selector-sums", &d);
@@ -591,6 +635,7 @@ fn exec(w: &mut Option<World>, out: &mut Out, base: &Path, line: &str) {
         }
         _ => {
             let w = w.as_mut().expect("cfg first");
+            w.op_no += 1;
             match ts[0] {
                 "submit" => {
                     let tid: usize = ts[1].parse().unwrap();
@@ -631,7 +676,7 @@ fn exec(w: &mut Option<World>, out: &mut Out, base: &Path, line: &str) {
                         if b.parent_hash() == w.main.tip_hash() {
                             let r = w.main_process(&b);
                             if r != Ok(true) {
-                                out.oracle_fail("template-rejected", &format!("main node: number={} -> {:?}", b.number(), r));
+                                fail(w.stale(), out, "template-rejected", &format!("main node: number={} -> {:?}", b.number(), r));
                             }
                             out.count("mined");
                         } else {
@@ -649,6 +694,10 @@ fn exec(w: &mut Option<World>, out: &mut Out, base: &Path, line: &str) {
                     do_fork(w, out, back, extra, nprop, ncommit);
                     if sync {
                         w.sync_pool(out);
+                    }
+                    if pool_aggregates_stale(w) {
+                        w.stale_op = Some(w.op_no);
+                        out.count("stale-aggregates-after-fork");
                     }
                     out.op(line, "ok");
                 }
